@@ -109,3 +109,13 @@ func init() {
 		Assumptions: []string{"an io.Reader does not return (0, nil) forever", "DivSufSort-internal panics (algorithm invariants) are not decided"},
 	}
 }
+
+func init() {
+	properties["C10"] = &Property{
+		Title: "suffix.Segments reports every shared-prefix group, completely, once",
+		Rules: []string{"R-SEG-PRE", "R-SEG-BOUNDS", "R-SEG-LEFT", "R-SEG-ORDER", "R-SEG-SCAN"},
+		Decided: "the code shape of the LCP-interval stack scan: preconditions established by Segments (0 ≤ minLen ≤ maxLen, len(sa)=len(lcp) ≥ 1, early return only when nothing can be reported), m ∈ [minLen, maxLen] at the callback, left-boundary inheritance across pops, the three-way push / keep / report-then-pop split on the incoming lcp value, the scan position and sentinel, exit only with an empty stack.",
+		NotDecided: "completeness as a fact about texts (that the invariant implies every pair of suffixes lands in exactly one callback) is argued from the invariant, not computed; distinctness of suffixes is inherited from sa being a permutation and the correctness of the LCP table (C09).",
+		Assumptions: []string{"lcp is the LCP table of sa (C09)", "lcp values are non-negative, so the negative sentinel closes every open interval"},
+	}
+}
